@@ -219,6 +219,14 @@ def _case(seed: int) -> Dict[str, Any]:
                         e["name"], e["cat"] = "Stream Sync", "cuda_sync"
                     elif k % 3 == 2:
                         e["name"] = "Async Memcpy PtoP staging"
+    if seed % 5 == 2:  # the first device stream is stream 0 (the default stream): a legitimate, falsy stream id
+        for evs in per_rank.values():
+            for e in evs:
+                a = e.get("args")
+                if isinstance(a, dict) and a.get("stream") == 7:
+                    a["stream"] = 0
+                    if e.get("tid") == 7:
+                        e["tid"] = 0
     if seed % 4 == 3:  # the analysed ranks are a subset of the job's trainers: rank ids 1 and 3, not 0..n-1 (results are keyed by rank id, not by position)
         per_rank = {2 * rk + 1: evs for rk, evs in per_rank.items()}
     fails = []
@@ -226,7 +234,14 @@ def _case(seed: int) -> Dict[str, Any]:
     with rt.trace_dir(per_rank) as d:
         try:
             ta = rt.lib(fails, "load", {"seed": seed, "events": per_rank}, rt.load_analysis, d)
-            if any((ta.t.get_trace(rk)["stream"] != -1).sum() == 0 for rk in per_rank):
+            def _fstream(e):
+                a = e.get("args")
+                try:
+                    return int(a.get("stream", -1)) if isinstance(a, dict) else -1
+                except (TypeError, ValueError):
+                    return -1
+            fstream = {rk: {i: _fstream(e) for i, e in gen.complete_events(evs)} for rk, evs in per_rank.items()}  # device rows are those the FILE puts on a stream
+            if any(sum(1 for i in ta.t.get_trace(rk)["index"] if fstream[rk].get(int(i), -1) != -1) == 0 for rk in per_rank):
                 # the property is stated for traces in which EACH rank has at least one device activity
                 return {"n_checks": 0, "fails": [], "nontrivial": False, "clauses": {}, "sample": {"seed": seed, "skipped": "a rank without device activity (outside the property's quantifier)"}}
             out = rt.lib(fails, "get_temporal_breakdown", {"seed": seed, "events": per_rank}, ta.get_temporal_breakdown, visualize=False)
@@ -235,7 +250,7 @@ def _case(seed: int) -> Dict[str, Any]:
         for rk in per_rank:
             df = ta.t.get_trace(rk)
             stab = ta.t.symbol_table.get_sym_table()
-            dev = df[df["stream"] != -1]
+            dev = df[[fstream[rk].get(int(i), -1) != -1 for i in df["index"]]]
             if len(dev) == 0:
                 continue
             iv = [(Fraction(float(a)), Fraction(float(a)) + Fraction(float(b))) for a, b in zip(dev["ts"], dev["dur"])]  # exact: quarters are binary fractions
